@@ -46,6 +46,9 @@ var c05Extra = []c05Entry{
 	{`$round(n[0] / 3, 2)`, false}, {`$round(n[0] / 3)`, false}, {`$join(s.$split(" "))`, false}, {`$join(s.$split(" "), "-")`, false},
 	{`$formatBase(n[0] + 7)`, false}, {`$formatBase(n[0] + 7, 2)`, false}, {`$substring(s, 1)`, false}, {`$substring(s, 1, 2)`, false},
 	{`$string(o[0])`, false}, {`$string(o[0], true)`, false}, {`$formatNumber(n[0] / 3, "0.0", {"decimal-separator": ","})`, false}, {`$formatNumber(n[0] / 3, "0,0")`, false},
+	// one picture under decimal formats that differ only in members a picture cache could leave out of its key
+	{`$formatNumber(0 - n[0] / 8, "00%")`, false}, {`$formatNumber(0 - n[0] / 8, "00%", {"percent": "pc", "minus-sign": "~"})`, false},
+	{`$formatNumber(n[0], "#0‰")`, false}, {`$formatNumber(n[0], "#0‰", {"per-mille": "pm"})`, false},
 	{`$split(s, "o", 1)`, false}, {`$sort(n, function($l, $r){$l < $r})`, false}, {`$reduce(n, function($a, $b){$a + $b}, 100)`, false}, {`$reduce(n, function($a, $b){$a + $b})`, false},
 }
 
